@@ -264,6 +264,17 @@ macro_rules! affine_mod {
                         }
                     }
                 });
+                fam_run!("pert_mean", |t: &mut Tally| {
+                    // constructed through with_mean (params: min, max, mean, shape): the mean is mapped with the support
+                    for &(a, b, m, sh) in &[(0.0, 1.0, 0.375, 2.0), (0.0, 1.0, 0.5, 4.0), (0.25, 0.75, 0.5, 8.0), (-1.0, 1.0, 0.125, 1.0)] {
+                        for &p in &pows {
+                            pair("pert_mean", &[a, b, m, sh], &[a * p, b * p, m * p, sh], Map::Pow2(p), &strm, t, profile);
+                        }
+                        for &s in &[1.0, -2.0, 16.0, 0.125] {
+                            pair("pert_mean", &[a, b, m, sh], &[a + s, b + s, m + s, sh], Map::Shift(s), &strm, t, profile);
+                        }
+                    }
+                });
                 // LogNormal: affine in log space == from_zscore of the standard normal drawn from the clone
                 fam_run!("log_normal", |t: &mut Tally| {
                     // both signs of sigma (a negative std_dev is documented as allowed and must act as such)
